@@ -392,6 +392,9 @@ def shrink_candidates(sc):
     for o in cs["objs"]:
         for v in o["slots"].values():
             refs(v)
+    for v in cs["views"]:
+        if v.get("array") is not None:
+            referenced.add(v["array"])
     member = {l for _v, l in cs["members"]}
     for i, o in enumerate(cs["objs"]):
         if o["o"] not in referenced and o["o"] not in member:
